@@ -680,7 +680,7 @@ every refresh of every history that starts from it (`ClusterState::new` starts f
 theorem pickNode_pool_iff_accepted (known : List KNode) (hinv : ∀ k ∈ known, k.enabled = k.pool) (p : MPeer) :
     (pickNode known p).pool = p.accepted ∧ (pickNode known p).enabled = (pickNode known p).pool := by
   have hk : ∀ k, lookupKnown known p.node.id = some k → k.enabled = k.pool :=
-    fun k h => hinv k (List.mem_of_find?_eq_some h)
+    fun k h => hinv k (List.mem_reverse.mp (List.mem_of_find?_eq_some h))
   unfold pickNode
   cases ha : p.accepted <;> cases hl : lookupKnown known p.node.id with
   | none => simp
@@ -827,6 +827,167 @@ example :
     (pickNode known ⟨⟨3, some 0, some 1⟩, 9, [30], true⟩) = ⟨⟨3, some 0, some 1⟩, 9, true, true⟩ ∧     -- address changed: inherited
     (pickNode known ⟨⟨4, some 0, some 2⟩, 4, [40], true⟩) = ⟨⟨4, some 0, some 2⟩, 4, true, true⟩ ∧     -- reused (enabled)
     (pickNode known ⟨⟨4, some 0, some 0⟩, 4, [40], true⟩).node.rack = some 0 := by decide       -- rack changed: new
+
+/-! #### a host id repeated in one peer list
+
+Nothing in front of `calculate_new_topology` removes repeated host ids (`validate_peers`, `fetching.rs:228-240`, only
+refuses an empty list and all-empty tokens; `system.peers` is keyed by address).  Every row is matched against the
+OLD `known_nodes` only (`state.rs:291`), so two rows with one id give two node objects, both in the ring, while
+`new_known_nodes.insert` keeps the last.  `refresh_locator_eq_fresh`, `newTopology_entries`, `pickNode_node` above
+have NO distinctness hypothesis: they hold for such lists.  What is added here: which object the next refresh
+meets (`lookupKnown_*`, `known_after_refresh_last_row`), and when Rust's by-host-id `unique()` / `HashSet<Arc<Node>>`
+is the structural one of the model (`uniqById_eq_uniq` under `RowsAgree`, established for every ring built from
+agreeing rows by `newTopology_ring_idDetermines`). -/
+
+/-- The last insert of a host id wins. -/
+theorem lookupKnown_last (known : List KNode) (k : KNode) : lookupKnown (known ++ [k]) k.node.id = some k := by
+  simp [lookupKnown]
+
+/-- An insert under another host id does not disturb the entry. -/
+theorem lookupKnown_append_other (known : List KNode) (k : KNode) (id : Nat) (h : k.node.id ≠ id) :
+    lookupKnown (known ++ [k]) id = lookupKnown known id := by
+  simp [lookupKnown, h]
+
+/-- What is found is one of the inserted objects and has the id asked for. -/
+theorem lookupKnown_some (known : List KNode) (id : Nat) (k : KNode) (h : lookupKnown known id = some k) :
+    k ∈ known ∧ k.node.id = id :=
+  ⟨List.mem_reverse.mp (List.mem_of_find?_eq_some h), by simpa using List.find?_some h⟩
+
+/-- With pairwise distinct host ids (the only peer lists the model covered before) last = first. -/
+theorem lookupKnown_eq_first_of_distinct (known : List KNode) (hd : (known.map (·.node.id)).Nodup) (id : Nat) :
+    lookupKnown known id = known.find? (fun k => decide (k.node.id = id)) := by
+  induction known with
+  | nil => rfl
+  | cons k tl ih =>
+    rw [List.map_cons, List.nodup_cons] at hd
+    have hd' := hd
+    have ih := ih hd'.2
+    unfold lookupKnown at ih ⊢
+    rw [List.reverse_cons, List.find?_append, ih, List.find?_cons]
+    by_cases hk : k.node.id = id
+    · have : tl.find? (fun k => decide (k.node.id = id)) = none := by
+        rw [List.find?_eq_none]
+        intro x hx hxid
+        exact hd'.1 (List.mem_map.mpr ⟨x, hx, (of_decide_eq_true hxid).trans hk.symm⟩)
+      simp [this, hk]
+    · cases htl : tl.find? (fun k => decide (k.node.id = id)) <;> simp [hk, htl]
+
+/-- **Which object the NEXT refresh meets.**  After `calculate_new_topology`, `known_nodes.get(id)` is the node object
+chosen for the LAST peer row carrying that host id; the objects of earlier rows with the same id are in the ring but
+unknown to `known_nodes` (`get_node_by_host_id`, the next refresh's reuse match, pool bookkeeping). -/
+theorem known_after_refresh_last_row (known : List KNode) (peers : List MPeer) (id : Nat) :
+    lookupKnown (newTopology known peers).1 id =
+      (peers.reverse.find? (fun p => decide (p.node.id = id))).map (pickNode known) := by
+  unfold lookupKnown newTopology
+  simp only [← List.map_reverse, List.find?_map, Function.comp_def, pickNode_node]
+
+/-- Rust's `unique()` / `HashSet` over `Arc<Node>`: `Node` is `Eq + Hash` by `host_id` ONLY (`cluster/node.rs`), so the
+first entry per HOST ID wins, whatever its datacenter and rack. -/
+def uniqByIdFrom (seen : List Nat) : List Node → List Node
+  | [] => []
+  | a :: l => if a.id ∈ seen then uniqByIdFrom seen l else a :: uniqByIdFrom (a.id :: seen) l
+
+def uniqById (l : List Node) : List Node := uniqByIdFrom [] l
+
+/-- Entries with one host id are one node (same datacenter, same rack). -/
+def IdDeterminesNode (l : List Node) : Prop := ∀ a ∈ l, ∀ b ∈ l, a.id = b.id → a = b
+
+/-- Peer rows with one host id agree on datacenter and rack (they describe one node). -/
+def RowsAgree (peers : List MPeer) : Prop := ∀ p ∈ peers, ∀ q ∈ peers, p.node.id = q.node.id → p.node = q.node
+
+private theorem uniqByIdFrom_eq (l : List Node) (seen : List Node) (h : IdDeterminesNode (seen ++ l)) :
+    uniqByIdFrom (seen.map (·.id)) l = uniqFrom seen l := by
+  induction l generalizing seen with
+  | nil => rfl
+  | cons a tl ih =>
+    have hmem : a.id ∈ seen.map (·.id) ↔ a ∈ seen := by
+      constructor
+      · intro hin
+        obtain ⟨b, hb, hba⟩ := List.mem_map.mp hin
+        have := h b (List.mem_append_left _ hb) a (List.mem_append_right _ (List.mem_cons_self ..)) hba
+        rwa [← this]
+      · intro hin; exact List.mem_map.mpr ⟨a, hin, rfl⟩
+    have sub1 : ∀ x, x ∈ seen ++ tl → x ∈ seen ++ a :: tl := by
+      intro x hx
+      rcases List.mem_append.mp hx with h | h
+      · exact List.mem_append_left _ h
+      · exact List.mem_append_right _ (List.mem_cons_of_mem _ h)
+    have sub2 : ∀ x, x ∈ (a :: seen) ++ tl → x ∈ seen ++ a :: tl := by
+      intro x hx
+      simp only [List.cons_append, List.mem_cons, List.mem_append] at hx ⊢
+      rcases hx with h | h | h
+      · exact .inr (.inl h)
+      · exact .inl h
+      · exact .inr (.inr h)
+    unfold uniqByIdFrom uniqFrom
+    by_cases ha : a ∈ seen
+    · rw [if_pos (hmem.mpr ha), if_pos ha]
+      apply ih
+      intro x hx y hy
+      exact h x (sub1 x hx) y (sub1 y hy)
+    · rw [if_neg (fun hc => ha (hmem.mp hc)), if_neg ha]
+      have := ih (a :: seen) (by
+        intro x hx y hy
+        exact h x (sub2 x hx) y (sub2 y hy))
+      rw [List.map_cons] at this
+      rw [this]
+
+/-- **By-host-id `unique()` = the model's structural `uniq`** on every list in which a host id determines the node:
+there the model's `uniqueNodes`, `simpleReplicas`, `ntsReplicas`, the ring-ordered view are the code's. -/
+theorem uniqById_eq_uniq (l : List Node) (h : IdDeterminesNode l) : uniqById l = uniq l :=
+  uniqByIdFrom_eq l [] (by simpa using h)
+
+/-- The hypothesis holds for every ring `calculate_new_topology` builds from rows that agree — distinct ids or not,
+whatever the previous state and the reuse arms taken. -/
+theorem newTopology_ring_idDetermines (known : List KNode) (peers : List MPeer) (h : RowsAgree peers) :
+    IdDeterminesNode ((mkRing (newTopology known peers).2).map (·.2)) := by
+  have hm : ∀ n ∈ (mkRing (newTopology known peers).2).map (·.2), ∃ p ∈ peers, p.node = n := by
+    intro n hn
+    obtain ⟨e, he, rfl⟩ := List.mem_map.mp hn
+    rw [(mkRing_perm _).mem_iff, newTopology_entries] at he
+    unfold Topology.entries toTopology at he
+    simp only [List.mem_flatMap, List.mem_map] at he
+    obtain ⟨p, ⟨q, hq, rfl⟩, tk, _, rfl⟩ := he
+    exact ⟨q, hq, rfl⟩
+  intro a ha b hb hab
+  obtain ⟨p, hp, rfl⟩ := hm a ha
+  obtain ⟨q, hq, rfl⟩ := hm b hb
+  exact h p hp q hq hab
+
+/-- Distinct host ids are the special case. -/
+theorem rowsAgree_of_distinct (peers : List MPeer) (hd : (peers.map (·.node.id)).Nodup) : RowsAgree peers := by
+  intro p hp q hq hpq
+  induction peers with
+  | nil => cases hp
+  | cons x tl ih =>
+    rw [List.map_cons, List.nodup_cons] at hd
+    have hd' := hd
+    rcases List.mem_cons.mp hp with rfl | hp' <;> rcases List.mem_cons.mp hq with rfl | hq'
+    · rfl
+    · exact absurd (List.mem_map.mpr ⟨q, hq', hpq.symm⟩) hd'.1
+    · exact absurd (List.mem_map.mpr ⟨p, hp', hpq⟩) hd'.1
+    · exact ih hd'.2 hp' hq'
+
+-- non-vacuity: host 7 listed twice (addresses 0 and 2, different tokens), rows agree; the ring holds both objects,
+-- `known_nodes` the one at address 2; a next refresh listing 7 at address 0 does NOT reuse (address differs) but
+-- inherits from the object at address 2
+example :
+    let peers : List MPeer := [⟨⟨7, some 0, some 0⟩, 0, [10], true⟩, ⟨⟨8, some 0, some 1⟩, 1, [20], true⟩,
+                               ⟨⟨7, some 0, some 0⟩, 2, [30], true⟩]
+    RowsAgree peers ∧ ¬ ((peers.map (·.node.id)).Nodup) ∧
+    (newTopology [] peers).2 = [(10, ⟨7, some 0, some 0⟩), (20, ⟨8, some 0, some 1⟩), (30, ⟨7, some 0, some 0⟩)] ∧
+    (lookupKnown (newTopology [] peers).1 7).map (·.addr) = some 2 ∧
+    pickArm (newTopology [] peers).1 ⟨⟨7, some 0, some 0⟩, 0, [10], true⟩ = .inherited ∧
+    pickArm (newTopology [] peers).1 ⟨⟨7, some 0, some 0⟩, 2, [10], true⟩ = .reused := by
+  refine ⟨?_, by decide, by decide, by decide, by decide, by decide⟩
+  intro p hp q hq _
+  simp only [List.mem_cons, List.mem_nil_iff, or_false] at hp hq
+  rcases hp with rfl | rfl | rfl <;> rcases hq with rfl | rfl | rfl <;> simp_all
+
+-- OUTSIDE the theorems: rows with one host id that DISAGREE on the rack.  The code's by-id `unique()` keeps one entry
+-- where the model's structural `uniq` keeps two (while `rack_count` counts both racks): the placement theorems do not
+-- describe what the driver answers for such metadata (the case-line parsers refuse it).
+example : uniqById [⟨1, some 0, some 0⟩, ⟨1, some 0, some 1⟩] ≠ uniq [⟨1, some 0, some 0⟩, ⟨1, some 0, some 1⟩] := by decide
 
 end refresh
 
